@@ -761,6 +761,15 @@ fn write_timestamp(
     match timezone {
         Some(tz) => {
             let date = Utc.from_utc_datetime(&naive).with_timezone(&tz);
+            if naive
+                .checked_add_offset(chrono::Offset::fix(date.offset()))
+                .is_none()
+            {
+                return Err(ArrowError::CastError(format!(
+                    "Failed to convert {naive:?} to a local datetime: out of range"
+                ))
+                .into());
+            }
             match format {
                 CompiledTimeFormat::Custom(items) => {
                     write!(f, "{}", date.format_with_items(items.0.iter()))?
